@@ -32,6 +32,20 @@ def wild_defs(seed, n):
             named.append({"kind": "any", "id": "any0", "anywhere": True, "arity": rnd.choice(["opt", "many"]), "help": "HELP-any"})
         elif r < 0.62:
             named.append({"kind": "pure", "id": "pu"})
+        elif r < 0.72:
+            # gcc-style defines: an adjacent group that starts with `any` (`-Dname=value` is two items for bpaf) and a file
+            named.append({"kind": "seq", "id": "dseq", "adjacent": True, "arity": rnd.choice(["many", "opt"]), "help": "",
+                          "fields": [{"kind": "any", "id": "anyd", "prefix": "-D", "anywhere": True, "arity": "one", "help": "HELP-anyd"},
+                                     D.posm("df")]})
+        elif r < 0.8:
+            # headers inside headers: a group with a header that holds an adjacent group whose member has its own header,
+            # directly followed by another group with a header (or by a plain item)
+            inner = D.adjf("gh", rnd.choice(["one", "opt", "many"]), D.rf("hh", "one", "--pt"), D.posm("hx"))
+            inner["members"][0]["group_help"] = "GROUP-inner"
+            named.append({"kind": "seq", "id": "go", "arity": "one", "help": "", "group_help": "GROUP-outer", "fields": [inner]})
+            if rnd.random() < 0.5:
+                named.append(lf("m"))
+            named.append({"kind": "seq", "id": "g2", "arity": "one", "help": "", "group_help": "GROUP-second", "fields": [lf("q")]})
         for it in named:
             if rnd.random() < 0.15:
                 it["hidden"] = True
@@ -62,6 +76,14 @@ def vocabulary(d):
     v = []
     def walk(lvl):
         for f in lvl["named"]:
+            if f.get("kind") == "seq":
+                for x in f["fields"]:
+                    if x.get("kind") == "any" and x.get("prefix"):
+                        v.extend([x["prefix"] + "n=1", x["prefix"] + "n", x["prefix"] + "=", x["prefix"]])
+                    elif x.get("kind") in ("switch", "reqflag", "arg"):
+                        v.extend(x["shorts"] + x["longs"])
+                    elif x.get("kind") == "adj":
+                        v.extend(x["head"]["shorts"] + x["head"]["longs"])
             for it in (D.field_leaves(f) if f["kind"] in ("switch", "reqflag", "arg", "alt", "adj") else []):
                 for n in it["shorts"] + it["longs"]:
                     v.append(n)
